@@ -68,10 +68,13 @@ def routines(ctx, prop):
         loops = {e.data.get("lid"): e for e in r.events if e.kind == "loop"}
         L1 = loops[ic.loops[0]]
         grid = A.at(ic, "self._x_grid")
+        grule = "R04.1" if prop == "C04" else "R05.2"
+        ok = not g.loops and g.seq < L1.seq and A.eq(g.data["value"], A.at(g, "np.linspace(0, 1, self.grid_size + 1)", NP)) \
+            and not [c for c in g.pc if c.op != "assume"]
+        ctx.ob(grule, fq, g.node, ok, f"{kind}: the grid is linspace(0, 1, grid_size + 1), (re)defined unconditionally by every "
+               "fit before the group loop" if ok else f"{kind}: the grid is not unconditionally linspace(0, 1, grid_size + 1) "
+               "in this fit (a stale grid of an earlier fit / another grid_size may be used)", construct=f"{kind}: grid definition")
         if prop == "C04":
-            ok = not g.loops and g.seq < L1.seq and A.eq(g.data["value"], A.at(g, "np.linspace(0, 1, self.grid_size + 1)", NP))
-            ctx.ob("R04.1", fq, g.node, ok, f"{kind}: the grid is linspace(0, 1, grid_size + 1), defined once before the group "
-                   "loop", construct=f"{kind}: grid definition")
             ok = arg(ic, 4, "x_grid") is g.data["value"] and len(ic.loops) == 1 and arg(ic, 0) is tc.data["result"] \
                 and [const_value(x) for x in ic.data["args"][1:4]] == ["x", "y", "operation"]
             ctx.ob("R04.1", fq, ic.node, ok, f"{kind}: every group's hull is interpolated on that same grid (columns x, y, "
